@@ -145,7 +145,7 @@ def check_property(pid, tier, seed, only=None, verbose=True):
         ob.setdefault('engine', 'chx')
         ob.setdefault('params', {})
         jobs.append((ob, False))
-        if ob.get('twin', ob['engine'] == 'chx'):
+        if ob.get('twin', True):
             jobs.append((ob, True))
 
     results = {}
